@@ -7,6 +7,7 @@ From Coq Require Import List NArith Bool.
 From Frugal Require Import Bytes Wire Skip Values Desc Spec Encode Decode Checks Tags State Bitset Alloc DescMap Conc LegacyDefs Args.
 From Frugal.gen Require Import Params.
 From Frugal.proofs Require Import GenOk BytesWire EncodeSpec SizeExact SkipPut DecodeSafe DecodeRefines RoundTrip Corollaries StateProofs BitsetProofs AllocProofs DescMapProofs ConcProofs BufferContract.
+From Frugal.proofs Require Import TagsProofs TagsStruct.
 From Frugal.props Require Import Examples.
 Import ListNotations.
 
@@ -77,3 +78,68 @@ Proof.
     + intros [-> | [nil ->]]; reflexivity.
 Qed.
 Print Assumptions C13_bad_argument.
+
+(* ---- the invalid classes as theorems on the resolver model (proofs/TagsStruct.v) ---- *)
+
+(* a struct is rejected exactly when one of its fields is, or two fields carry the same id *)
+Theorem C13_rejection_characterised : forall gs,
+  resolve_fields gs = RErr <->
+  (exists gf, In gf (gs_fields gs) /\ resolve_one gf O [] = RErr) \/ dup_id (gs_fields gs).
+Proof. exact resolve_fields_err_iff. Qed.
+Print Assumptions C13_rejection_characterised.
+
+Theorem C13_duplicate_id : forall gs, dup_id (gs_fields gs) -> resolve_fields gs = RErr.
+Proof. exact duplicate_id_rejected. Qed.
+
+(* Go kinds Thrift cannot express, at any depth of the field's type, whatever the annotation *)
+Theorem C13_unsupported_kind : forall vt annot def allow,
+  has_unsup vt = true -> parse_type vt annot def allow = RErr.
+Proof. exact unsupported_kind_rejected. Qed.
+
+(* a slice, at any depth, without a list/set annotation *)
+Theorem C13_bare_slice : forall vt def allow, has_list vt = true -> parse_type vt false def allow = RErr.
+Proof. exact bare_slice_rejected. Qed.
+
+(* an annotation whose head contradicts the Go type *)
+Theorem C13_contradicting_annotation : forall vt def allow tok r,
+  read_token def = (tok, r) -> head_ok vt tok (fst (read_token r)) = false ->
+  parse_type vt true def allow = RErr.
+Proof. exact head_mismatch_rejected. Qed.
+
+Theorem C13_bad_map_key : forall k v annot def allow,
+  go_key_ok k = false -> parse_type (GMap k v) annot def allow = RErr.
+Proof. exact bad_map_key_rejected. Qed.
+
+Theorem C13_ptr_ptr : forall e annot def allow, parse_type (GPtr (GPtr e)) annot def allow = RErr.
+Proof. exact ptr_ptr_rejected. Qed.
+
+(* non-numeric, empty and out-of-range ids; unknown requiredness; unknown or misplaced options *)
+Theorem C13_bad_id : forall gf ids ft1 idx seen,
+  tagged gf (ids :: ft1) -> parse_uint16 ids = None -> resolve_one gf idx seen = RErr.
+Proof. exact bad_id_rejected. Qed.
+
+Theorem C13_id_out_of_range : forall s, 65535 < dvalue s 0 -> parse_uint16 s = None.
+Proof. exact parse_uint16_range. Qed.
+
+Theorem C13_unknown_option : forall gf ft idx seen o,
+  tagged gf ft -> In o (options ft) -> o <> s_nocopy -> resolve_one gf idx seen = RErr.
+Proof. exact unknown_option_rejected. Qed.
+
+Theorem C13_nocopy_nonstring : forall gf ft idx seen,
+  tagged gf ft -> options ft <> [] -> go_stringlike (gf_type gf) = false -> resolve_one gf idx seen = RErr.
+Proof. exact nocopy_nonstring_rejected. Qed.
+
+(* every type-level rejection rejects the field, hence the struct, hence (C13_rejected_stable) every
+   struct that reaches it, on every call *)
+Theorem C13_type_error_rejects_field : forall gf ft idx seen,
+  tagged gf ft -> parse_type_top (gf_type gf) (annotation ft) = RErr -> resolve_one gf idx seen = RErr.
+Proof. exact type_err_rejected. Qed.
+
+Theorem C13_field_error_rejects_struct : forall gs gf i,
+  In gf (gs_fields gs) -> resolve_one gf i [] = RErr -> resolve_fields gs = RErr.
+Proof. exact resolve_fields_err. Qed.
+
+Theorem C13_rejected_everywhere : forall gu s u gs,
+  reach gu s u -> nth_error gu (N.to_nat u) = Some gs -> resolve_fields gs = RErr -> accepted gu s = false.
+Proof. exact rejected_everywhere. Qed.
+Print Assumptions C13_rejected_everywhere.
